@@ -602,6 +602,33 @@ def r11_4(prog, rep):
     g = prog.fn("terms.call_resolver.get_function_from_module")
     obl(rep, g, g.node, "R11.4", len(g.params) == 2 and not any(p in ("data", "data_mask") for p in g.params),
         "callee resolution never sees the data frame", f"params {g.params}")
+    # "a name defined in none of these raises": a failed look-up of the callee is not caught and answered from somewhere else
+    # (sys.modules, importlib, builtins, a default): no handler in the resolver swallows KeyError / AttributeError
+    swallow = []
+    for t_ in [n for n in ast.walk(g.node) if isinstance(n, ast.Try)]:
+        for h_ in t_.handlers:
+            caught = unparse(h_.type) if h_.type is not None else "BaseException"
+            reraises = h_.body and isinstance(h_.body[-1], ast.Raise) and (h_.body[-1].exc is None or (h_.name and isinstance(h_.body[-1].exc, ast.Name) and h_.body[-1].exc.id == h_.name))
+            if any(k in caught for k in ("KeyError", "AttributeError", "LookupError", "Exception", "BaseException", "NameError")) and not reraises:
+                swallow.append(h_)
+    obl(rep, g, swallow[0] if swallow else g.node, "R11.4", not swallow, "a callee found in no scope raises: the resolver has no fallback after a failed look-up", "",
+        f"`except {unparse(swallow[0].type) if swallow and swallow[0].type is not None else ''}` answers a failed look-up from another source: "
+        "a name bound in none of the documented scopes resolves anyway")
+    # ... and is looked up again on every evaluation: nothing on the way is memoised (a cached attribute chain keeps answering
+    # with the function that was bound at the first evaluation)
+    from .C07 import MEMO_DECORATORS
+    memo = []
+    for c_ in calls_in(g.node):
+        d_ = (dotted(c_.func) or "").split(".")[0]
+        kind_, q_ = prog.resolve(g.module, d_) if d_ else (None, None)
+        if kind_ == "func" and q_ in prog.functions:
+            h_ = prog.functions[q_]
+            if any(x and (x in MEMO_DECORATORS or x.split(".")[-1] in {m.split(".")[-1] for m in MEMO_DECORATORS}) for x in h_.decorators):
+                memo.append((c_, h_))
+    if any(x and (x in MEMO_DECORATORS or x.split(".")[-1] in {m.split(".")[-1] for m in MEMO_DECORATORS}) for x in g.decorators):
+        memo.append((g.node, g))
+    obl(rep, g, memo[0][0] if memo else g.node, "R11.4", not memo, "callee resolution is not memoised (resolved anew at every evaluation)", "",
+        f"{memo[0][1].qual if memo else ''} is memoised: after the name is re-bound the call keeps resolving to the old function")
     for n in range(1, 6):
         sym = _Sym(g, n)
         try:
